@@ -20,38 +20,7 @@
 (* Written from the RFC, not from the code.  Where the RFC/property is     *)
 (* silent the spec is nondeterministic (named *Either* below).             *)
 (***************************************************************************)
-EXTENDS Utf8Def, FiniteSetsExt
-
-NoFrame == [op |-> 99]
-
-\* ---------------------------------------------------------------- frame header decoding
-Fin(h)    == h[1] >= 128
-Rsv(h)    == (h[1] \div 16) % 8
-Opcode(h) == h[1] % 16
-Masked(h) == h[2] >= 128
-Len7(h)   == h[2] % 128
-IsControl(h) == Opcode(h) >= 8
-ExtLen(h) == IF Len7(h) = 126 THEN 2 ELSE IF Len7(h) = 127 THEN 8 ELSE 0
-HdrLen(h) == 2 + ExtLen(h) + (IF Masked(h) THEN 4 ELSE 0)
-
-\* payload length class and value.  TLC integers are 32 bit: a 64-bit length is "huge" (legal, but its value is not
-\* represented) unless its five high octets are zero and the sixth is < 128.
-PLen(h) ==
-  IF Len7(h) < 126 THEN [cls |-> "ok", v |-> Len7(h)]
-  ELSE IF Len7(h) = 126 THEN
-     LET v == h[3] * 256 + h[4] IN [cls |-> IF v < 126 THEN "nonminimal" ELSE "ok", v |-> v]
-  ELSE IF h[3] >= 128 THEN [cls |-> "over63", v |-> 0]
-  ELSE IF h[3] = 0 /\ h[4] = 0 /\ h[5] = 0 /\ h[6] = 0 /\ h[7] < 128 THEN
-     LET v == ((h[7] * 256 + h[8]) * 256 + h[9]) * 256 + h[10] IN
-       [cls |-> IF v < 65536 THEN "nonminimal" ELSE "ok", v |-> v]
-  ELSE [cls |-> "huge", v |-> 2147483647]
-
-\* ---------------------------------------------------------------- close codes (RFC 6455 7.4)
-\* must be accepted
-CloseCodeLegal(c) == c \in 1000..1003 \/ c \in 1007..1011 \/ c \in 3000..4999
-\* registered with IANA after the RFC: either verdict
-CloseCodeEither(c) == c \in 1012..1014
-\* everything else must be rejected: 0..999, 1004..1006, 1015..2999 (unassigned / reserved), >= 5000
+EXTENDS Utf8Def, WsFrame, FiniteSetsExt
 
 VARIABLES
   ctx,      \* [role, compress, failByDrop, maxFrame, maxMsg]  role = role of the receiving endpoint
@@ -168,10 +137,11 @@ CompleteData(f, d) ==
 
 Complete(f, d) == IF f.op >= 8 THEN CompleteControl(f, d) ELSE CompleteData(f, d)
 
-Empty == [n |-> 0, data |-> <<>>, ascii |-> FALSE, dlen |-> 0]
+\* dl = length of the decompressed message a zero-length final frame completes (compressed messages only)
+Empty(dl) == [n |-> 0, data |-> <<>>, ascii |-> FALSE, dlen |-> dl]
 
 \* ---------------------------------------------------------------- the two actions
-Header(h) ==
+Header(h, dl) ==
   /\ cs # "CLOSED" /\ ~failed /\ cur = NoFrame
   /\ UNCHANGED ctx
   /\ LET V == Violations(ctx, inside, h)
@@ -182,7 +152,7 @@ Header(h) ==
         ELSE IF SizeViolation(ctx, IF Opcode(h) = 0 THEN msgLen ELSE 0, h)
         THEN Fail(1009) /\ UNCHANGED <<inside, kind, u8, msgLen, cmp, cur>>
         ELSE IF f.len = 0
-        THEN Complete(f, Empty)
+        THEN Complete(f, Empty(dl))
         ELSE /\ cur' = f /\ re' = Quiet
              /\ UNCHANGED <<cs, failed, inside, kind, u8, msgLen, cmp>>
 
@@ -222,7 +192,7 @@ Init == /\ ctx \in Contexts
         /\ cs = "OPEN" /\ failed = FALSE /\ inside = FALSE /\ kind = "none" /\ u8 = "acc"
         /\ msgLen = 0 /\ cmp = FALSE /\ cur = NoFrame /\ re = Quiet
 
-Next == \/ \E h \in Headers : Header(h)
+Next == \/ \E h \in Headers : Header(h, 0)
         \/ \E d \in Payloads : Payload(d)
         \/ AfterFailure \/ AfterClosed \/ (\E c \in {1, 1000, 3000} : LocalClose(c))
 
